@@ -54,6 +54,11 @@ func MkdirAll(path string, uid, gid int, doChown bool, dirPerm fs.FileMode) erro
 		if err != nil {
 			return err
 		}
+	} else if j == 0 {
+		// The first element of a relative path is the bucket directory.
+		// Buckets are only created by CreateBucket: a missing bucket is
+		// not made here (it may just have been deleted).
+		return s3err.GetAPIError(s3err.ErrNoSuchBucket)
 	}
 
 	// Parent now exists; invoke Mkdir and use its result.
